@@ -13,10 +13,7 @@ RULE = (
 )
 TRUSTED = ["models: lean/SRVerif/Model/{Rec,LabelDP,Solvers}.lean; specification: lean/SRVerif/Spec/Opt.lean"]
 ASSUMPTIONS = ["coherent cost vectors"]
-OPEN = [
-    "exh has no table: its ANY policy is the result entry alone (C16_any); the multifurcation loop of the extended "
-    "solvers under ANY is C08's result entry",
-]
+OPEN = []  # `any` end to end: thl/spfs/uspfs (C05Any*), code models (C05AnyCode*), exh (C05AnyExh), multifurcation loop (C05AnyMulti)
 
 CORPUS = [
     # fixed: F-THL-LOSSDIST (co-optimal solution dropped)
